@@ -15,13 +15,17 @@ from .c12 import mutate_tree
 
 LEVEL = "exploration"
 SHARDS = {"quick": 1, "thorough": 16}
-REQUIRED = ("modify_after_unpack_compared", "unpack_compared", "pack_compared", "both_fail_compared", "struct_runs_generated", "illtyped_pack_compared",
+REQUIRED = ("descriptor_hook_comparisons", "descriptor_hook_pack_comparisons", "descriptor_hook_comparisons_ok_onlyafter",
+            "descriptor_hook_comparisons_ok_onlybefore", "descriptor_hook_comparisons_ok_both", "descriptor_hook_comparisons_ok_neither",
+            "modify_after_unpack_compared", "unpack_compared", "pack_compared", "both_fail_compared", "struct_runs_generated", "illtyped_pack_compared",
             "variants_compared")
 MIN_NONTRIVIAL = 150
 RULE = {
     "quick": "~230 generated families biased towards what the code generator groups (runs of fixed-size fields with mixed endianness/"
              "signedness/Data(n)/odd widths between variable fields) x 5 option sets (all off = reference, all on, no-vectorize, unpack-only, "
              "no-annotate) x (6 valid inputs + every 2nd truncation + corruptions + random strings; value trees + ill-typed leaves). "
+             "Plus 5 hand-written layouts x 4 user-written descriptors (no hook, sync_after_unpack only, sync_before_pack only, both) x all 16 "
+             "option combinations x 12 inputs and 4 keyword constructions. "
              "Non-trivial = a comparison of a non-reference variant with the reference on one case; distinct = (skeleton, variant, case kind, outcome).",
     "thorough": "16 shards x 500 families x all 16 combinations of the four options.",
 }
@@ -203,9 +207,148 @@ def modify_after_unpack(run, bench, variants, raw, off, pv, rng):
                 return
 
 
+HOOK_HEADER = render.HEADER + '''
+
+class _UserDescriptor(object):
+    # a user-written descriptor (duck typed: the class builder looks for the optional hooks _compile,
+    # sync_before_pack and sync_after_unpack); the attribute is the real field
+    def __get__(self, instance, owner):
+        if instance is None:
+            return self
+        return getattr(instance, self.real_field_name)
+
+    def __set__(self, instance, val):
+        setattr(instance, self.real_field_name, val)
+
+
+class Neither(_UserDescriptor):
+    pass
+
+
+class OnlyAfter(_UserDescriptor):
+    def sync_after_unpack(self, instance):     # keep the low nibble of what was parsed
+        setattr(instance, self.real_field_name, getattr(instance, self.real_field_name) & 0x0F)
+
+
+class OnlyBefore(_UserDescriptor):
+    def sync_before_pack(self, instance):      # always send the top bit
+        setattr(instance, self.real_field_name, getattr(instance, self.real_field_name) | 0x80)
+
+
+class Both(OnlyAfter, OnlyBefore):
+    pass
+
+'''
+
+HOOK_LAYOUTS = [
+    # (name, class bodies with %(D)s = descriptor expression and %(V)s = variant suffix, root class, field names to read)
+    ("run", "class R%(V)s(Packet):\n    __bisturi__ = %(O)r\n    a = Int(1)\n    x = Int(1).describe(%(D)s)\n    b = Int(2)\n", "R", ["a", "x", "b"]),
+    ("alone", "class R%(V)s(Packet):\n    __bisturi__ = %(O)r\n    n = Int(1)\n    d = Data(n)\n    x = Int(2).describe(%(D)s)\n    e = Data(until_marker=b';')\n", "R", ["n", "d", "x", "e"]),
+    ("size", "class R%(V)s(Packet):\n    __bisturi__ = %(O)r\n    x = Int(1).describe(%(D)s)\n    d = Data(x)\n    t = Int(1)\n", "R", ["x", "d", "t"]),
+    ("two", "class R%(V)s(Packet):\n    __bisturi__ = %(O)r\n    x = Int(1).describe(%(D)s)\n    y = Int(1, default=3).describe(%(D2)s)\n    z = Int(1)\n", "R", ["x", "y", "z"]),
+    ("nested", "class S%(V)s(Packet):\n    __bisturi__ = %(O)r\n    x = Int(1).describe(%(D)s)\n    k = Int(1)\n\nclass R%(V)s(Packet):\n    __bisturi__ = %(O)r\n    h = Int(1)\n    s = Ref(S%(V)s)\n    l = Ref(S%(V)s).repeated(count=2)\n", "R", ["h", "s.x", "s.k", "l.0.x", "l.0.k", "l.1.x", "l.1.k"]),
+]
+
+
+def _read_path(pkt, path):
+    v = pkt
+    for part in path.split("."):
+        v = v[int(part)] if part.isdigit() else getattr(v, part)
+    return v
+
+
+def descriptor_hooks_part(run, rng):
+    """Declarations whose fields carry user-written descriptors with every subset of the optional hooks
+    (none, sync_after_unpack only, sync_before_pack only, both): the generated code must call the same hooks
+    at the same points as the field loop."""
+    variants = all_variants()
+    descs = ["Neither()", "OnlyAfter()", "OnlyBefore()", "Both()"]
+    d = common.scratch_dir("bvf_c03h_")
+    try:
+        for lname, body, rootname, paths in HOOK_LAYOUTS:
+            for di, D in enumerate(descs):
+                D2 = descs[(di + 1 + rng.randrange(3)) % 4] if lname == "two" else D
+                src = HOOK_HEADER + "\n".join(body % {"D": D, "D2": D2, "V": "_" + v, "O": variants[v]} for v in variants)
+                try:
+                    module, path = render.load_source(src, d)
+                except Exception as e:
+                    run.violation("a declaration with a user descriptor (%s) could not be defined under some option set: %s: %s"
+                                  % (D, type(e).__name__, str(e)[:120]), {"source": src}, None)
+                    continue
+                ref_cls = getattr(module, rootname + "_g")
+                inputs = [bytes(rng.randrange(256) for _ in range(rng.choice([0, 2, 3, 5, 8, 12, 20]))) for _ in range(10)]
+                inputs += [bytes([3, 0xF5, 0x41, 0x42, 0x43, 0xF7, 0x3B, 0xF2, 0xF3, 0xF4, 0xF5, 0xF6]), b"\x02\xf1;\xf2\xf3;" + bytes(range(0xE0, 0xF0))]
+                for raw in inputs:
+                    def observe(cls):
+                        r = harness.lib_unpack(cls, raw)
+                        if r.status != "ok":
+                            return (r.status, getattr(r, "etype", None) if r.status == "exception" else None), None
+                        try:
+                            vals = [_read_path(r.pkt, p_) for p_ in paths]
+                        except Exception as e:
+                            return ("unreadable", type(e).__name__), None
+                        pr = harness.lib_pack(r.pkt)
+                        again = [_read_path(r.pkt, p_) for p_ in paths]
+                        return ("ok", vals, r.end, pr.status, pr.pkt if pr.status == "ok" else None, again), r.pkt
+                    want, _ = observe(ref_cls)
+                    for v in variants:
+                        if v == "g":
+                            continue
+                        got, _ = observe(getattr(module, rootname + "_" + v))
+                        run.case(key=("hooks", lname, D, v, want[0]), nontrivial=True)
+                        run.count("descriptor_hook_comparisons")
+                        if want[0] == "ok":
+                            run.count("descriptor_hook_comparisons_ok_" + D.rstrip("()").lower())
+                        if got != want:
+                            run.violation("with a user descriptor (%s) the generated code (%s) and the field loop disagree on unpack values / end offset / "
+                                          "pack bytes / values after pack" % (D, variants[v]),
+                                          {"source": src, "layout": lname, "descriptor": D, "variant": v, "options": variants[v], "input": b2j(raw),
+                                           "field_loop": common.to_json(want), "generated": common.to_json(got)}, None)
+                            break
+                # built by keyword arguments, then packed
+                for trial in range(4):
+                    kw = {}
+                    top = [p_ for p_ in paths if "." not in p_]
+                    for p_ in top:
+                        if rng.random() < 0.7:
+                            kw[p_] = bytes([rng.randrange(256)]) * rng.randrange(4) if p_ in ("d", "e") else rng.randrange(256)
+                    def build(cls):
+                        try:
+                            pkt = cls(**kw)
+                        except Exception as e:
+                            return ("construct-exception", type(e).__name__)
+                        pr = harness.lib_pack(pkt)
+                        try:
+                            vals = [_read_path(pkt, p_) for p_ in paths]
+                        except Exception as e:
+                            vals = type(e).__name__
+                        return (pr.status, pr.pkt if pr.status == "ok" else None, vals)
+                    want = build(ref_cls)
+                    for v in variants:
+                        if v == "g":
+                            continue
+                        got = build(getattr(module, rootname + "_" + v))
+                        run.count("descriptor_hook_pack_comparisons")
+                        if got != want:
+                            run.violation("with a user descriptor (%s) the generated code (%s) and the field loop disagree on pack() of a constructed packet"
+                                          % (D, variants[v]), {"source": src, "layout": lname, "descriptor": D, "variant": v, "options": variants[v],
+                                                               "kwargs": common.to_json(kw), "field_loop": common.to_json(want), "generated": common.to_json(got)}, None)
+                            break
+                import sys as _sys
+                _sys.modules.pop(module.__name__, None)
+    finally:
+        common.drop_scratch(d)
+
+
 def run(run):
     shard, nshards = run.shard
     rng = rng_for(run.seed, "c03", shard)
+    if shard == 0:
+        descriptor_hooks_part(run, rng_for(run.seed, "c03hooks"))
+    else:
+        for k in ("descriptor_hook_comparisons", "descriptor_hook_pack_comparisons", "descriptor_hook_comparisons_ok_onlyafter",
+                  "descriptor_hook_comparisons_ok_onlybefore", "descriptor_hook_comparisons_ok_both", "descriptor_hook_comparisons_ok_neither"):
+            run.count(k)
     variants = QUICK_VARIANTS if run.tier == "quick" else all_variants()
     nfam = 230 if run.tier == "quick" else 500
     profile = {
